@@ -13,8 +13,8 @@ ASSUMPTIONS = ["reference serialiser vf/ref/sighash.py (self-tested against the 
 NSHARDS = {"quick": 32, "thorough": 64}
 BUDGET_S = {"quick": 200, "thorough": 1800}
 MIN_HITS = {
-    "quick": {"flag_01": 100, "flag_02": 100, "flag_03": 100, "flag_81": 100, "flag_82": 100, "flag_83": 100, "idx>=1": 300, "nonpalindromic_seq": 500, "sign": 200, "subscript>=65536": 6, "single_without_output": 10, "subscript_has_ab_byte": 300},
-    "thorough": {"flag_01": 5000, "flag_03": 5000, "flag_83": 5000, "idx>=1": 10000, "nonpalindromic_seq": 10000, "sign": 5000, "subscript>=65536": 6},
+    'quick': {"flag_01": 100, "flag_02": 100, "flag_03": 100, "flag_81": 100, "flag_82": 100, "flag_83": 100, "idx>=1": 300, "nonpalindromic_seq": 500, "sign": 200, "subscript>=65536": 6, "single_without_output": 10, "subscript_has_ab_byte": 300},
+    'thorough': {"flag_01": 183307, "flag_03": 183078, "flag_83": 183194, "idx>=1": 566367, "nonpalindromic_seq": 1084120, "sign": 23040, "subscript>=65536": 7},
 }
 
 
@@ -25,7 +25,7 @@ def selftest():
 
 def cases(ctx):
     t = ctx.tier == "thorough"
-    yield from sc.gen_cases(ctx, sighash.LEGACY_FLAGS, 8000 if t else 40, 600 if t else 10)
+    yield from sc.gen_cases(ctx, sighash.LEGACY_FLAGS, 30000 if t else 40, 2500 if t else 10)
 
 
 def judge(ctx, case):
